@@ -1828,10 +1828,8 @@ class SpaceUpdater(SharedSpaceOperations):
         for b in basenodes:
             self._graph.remove_edge(b, node)
 
-        self._instructions.append(
-            Instruction(self._update_derived_space, (node,))
-        )
-        for _, v in nx.edge_bfs(self.manager._graph, node):
+        # Re-derive the space and its sub spaces, bases first
+        for v in self._graph.ordered_subs(node):
             self._instructions.append(
                 Instruction(self._update_derived_space, (v,))
             )
